@@ -384,6 +384,20 @@ def check_vector(vec, seed, full):
             f3 = formula(f'=AVERAGEIF({Rr[0]},{cf[0]},{Dr})')
             plan.append(('val', 'AVERAGEIF(range,crit,data)' + tag, f3, 'davg'))
             plan.append(('same', 'AVERAGEIFS=AVERAGEIF (one criterion)' + tag, (fa, f3), None))
+            if si == 0 and 1 < n <= 8:       # (a band of the sheet holds 8 rows)
+                # the criteria range a column, the sum range a row of as many
+                # cells (and the other way round): whatever the answer, both
+                # forms give it
+                for (rh, rw) in ((n, 1), (1, n)):
+                    Rc, Wt = place(vals, rh, rw), place(weights, rw, rh)
+                    ttag = f'|{rh}x{rw}'
+                    plan.append(('same', 'SUMIFS=SUMIF (sum range transposed)' + ttag,
+                                 (formula(f'=SUMIFS({Wt},{Rc},{cf[0]})'),
+                                  formula(f'=SUMIF({Rc},{cf[0]},{Wt})')), None))
+                    plan.append(('same',
+                                 'AVERAGEIFS=AVERAGEIF (average range transposed)' + ttag,
+                                 (formula(f'=AVERAGEIFS({Wt},{Rc},{cf[0]})'),
+                                  formula(f'=AVERAGEIF({Rc},{cf[0]},{Wt})')), None))
             plan.append(('val', 'SUMIF(range,crit)' + tag,
                          formula(f'=SUMIF({Rr[0]},{cf[0]})'), 'osum'))
             plan.append(('val', 'AVERAGEIF(range,crit)' + tag,
